@@ -72,6 +72,9 @@ pub enum CT {
     Date,
     Binary(u32),
     VarBinary(u32),
+    /// VarBinary(StringLen::None) and VarBinary(StringLen::Max)
+    VarBinaryNone,
+    VarBinaryMax,
     Boolean,
     Money(Option<(u32, u32)>),
     Json,
@@ -85,7 +88,7 @@ pub fn all_types() -> Vec<CT> {
         CT::Char(None), CT::Char(Some(1)), CT::Char(Some(255)), CT::String(None), CT::String(Some(1)), CT::String(Some(4000)), CT::StringMax, CT::Text, CT::Blob,
         CT::TinyInteger, CT::SmallInteger, CT::Integer, CT::BigInteger, CT::TinyUnsigned, CT::SmallUnsigned, CT::Unsigned, CT::BigUnsigned,
         CT::Float, CT::Double, CT::Decimal(None), CT::Decimal(Some((10, 2))), CT::Decimal(Some((16, 0))),
-        CT::DateTime, CT::Timestamp, CT::TimestampWithTimeZone, CT::Time, CT::Date, CT::Binary(1), CT::Binary(16), CT::VarBinary(255), CT::Boolean,
+        CT::DateTime, CT::Timestamp, CT::TimestampWithTimeZone, CT::Time, CT::Date, CT::Binary(1), CT::Binary(16), CT::VarBinary(255), CT::VarBinaryNone, CT::VarBinaryMax, CT::Boolean,
         CT::Money(None), CT::Money(Some((19, 4))), CT::Json, CT::JsonBinary, CT::Uuid, CT::Enum,
     ]
 }
@@ -122,6 +125,14 @@ impl CT {
             CT::Date => c.date(),
             CT::Binary(n) => c.binary_len(*n),
             CT::VarBinary(n) => c.var_binary(*n),
+            CT::VarBinaryNone => {
+                *c = ColumnDef::new_with_type(a("c"), ColumnType::VarBinary(StringLen::None));
+                c
+            }
+            CT::VarBinaryMax => {
+                *c = ColumnDef::new_with_type(a("c"), ColumnType::VarBinary(StringLen::Max));
+                c
+            }
             CT::Boolean => c.boolean(),
             CT::Money(None) => c.money(),
             CT::Money(Some((p, s))) => c.money_len(*p, *s),
@@ -136,7 +147,7 @@ impl CT {
         match self {
             CT::TinyInteger | CT::SmallInteger | CT::Integer | CT::BigInteger | CT::TinyUnsigned | CT::SmallUnsigned | CT::Unsigned | CT::BigUnsigned => Aff::Integer,
             CT::Float | CT::Double | CT::Decimal(_) | CT::Money(_) => Aff::Real,
-            CT::Blob | CT::Binary(_) | CT::VarBinary(_) => Aff::Blob,
+            CT::Blob | CT::Binary(_) | CT::VarBinary(_) | CT::VarBinaryNone | CT::VarBinaryMax => Aff::Blob,
             CT::Boolean => Aff::Numeric,
             _ => Aff::Text,
         }
@@ -311,7 +322,7 @@ pub fn snapshot(db: &Db, probes: bool) -> Vec<String> {
                 out.push(format!("  probe {label}: first={} second={}", cls(r), cls(r2)));
             };
             probe("default-values", format!("INSERT INTO {} DEFAULT VALUES", qi(&name)));
-            for v in ["13", "7", "NULL", "'x'"] {
+            for v in ["13", "7", "0", "-1", "NULL", "'x'"] {
                 if !insertable.is_empty() {
                     probe(&format!("all={v}"), format!("INSERT INTO {} ({}) VALUES ({})", qi(&name), insertable.iter().map(|c| qi(c)).collect::<Vec<_>>().join(", "), insertable.iter().map(|_| v).collect::<Vec<_>>().join(", ")));
                 }
@@ -486,6 +497,8 @@ fn check_table(t: &TableS) -> Result<bool, (String, String)> {
         if t.check {
             s.check(Expr::col(a("a")).gt(0));
         }
+        // the usual way to finish a builder chain: move the statement out, render the moved value
+        let s = s.take();
         s.to_string(SqliteQueryBuilder)
     });
     let mut r = String::from("CREATE TABLE ");
